@@ -36,7 +36,7 @@ REQUIRED = {"match.instance_matches": {"quick": 3000, "thorough": 150000}, "args
             "cucumber.lookup": {"quick": 1000, "thorough": 50000}, "registry.find_step_definition_agrees_with_find_match": {"quick": 3000, "thorough": 150000},
             "registry.partial_converter_lookup": {"quick": 2000, "thorough": 100000}, "lookups_ending_in_converter_error": {"quick": 200, "thorough": 10000}, "modules.default_matcher_reset": {"quick": 100, "thorough": 800},
             "wrapper.span_invariant_on_every_match": {"quick": 5000, "thorough": 250000}}
-REQUIRED_SEEN = {"literal_text_class": ["run_of_blanks_or_tab_or_nbsp_inside"], "matcher_selected_with": ["deprecated_alias_step_matcher", "use_step_matcher"], "registration_history": ["bad_definition_first"], "step_function_flavour": ["sync", "async_plain", "async_with_timeout", "behind_shared_decorator"], "step_module_imports_another": ["yes"],
+REQUIRED_SEEN = {"literal_text_class": ["run_of_blanks_or_tab_or_nbsp_inside"], "matcher_selected_with": ["deprecated_alias_step_matcher", "use_step_matcher"], "console_encoding_while_loading": ["utf-8", "latin-1", "cp1252"], "registration_history": ["bad_definition_first"], "step_function_flavour": ["sync", "async_plain", "async_with_timeout", "behind_shared_decorator"], "step_module_imports_another": ["yes"],
                  "cucumber_expression_parameters": ["none", "1", "2", "no_match"],
                  "project_default_given_by": ["use_default_step_matcher", "use_step_matcher_before_loading"], "matcher_kind": KINDS, "field_name_class": ["soft_keyword"], "custom_type_name": ["Color", "Colorful"], "token_kind": ["lit", "named", "int", "word", "float", "custom", "many", "optional", "rnamed", "runnamed", "roptional", "rbracket"]}
 EXHAUSTIVE = {"quick": True, "thorough": True}
@@ -638,7 +638,7 @@ def module_loading_random(lab, mon, rng):
         for i in range(k):
             choice = rng.choice([None, None, "re", "parse", "cfparse", "re0"])
             effective = choice or default
-            word = "w%d%s" % (i, rng.choice("abc"))
+            word = "w%d%s" % (i, rng.choice(["a", "b", "c", "\u00e4", "\u00df", "\u00a3"]))      # (step modules are UTF-8 source files)
             deco = rng.choice(["step", "given", "when", "then", "Given", "When", "Then", "Step"])
             if effective in ("re", "re0"):
                 pattern, value = "%s (?P<n>\\d+) \\(x\\)" % word, "7%d" % i
@@ -654,10 +654,11 @@ def module_loading_random(lab, mon, rng):
                 src += "use_step_matcher(%r)\n" % choice
                 mon.seen("matcher_selected_with", "use_step_matcher")
             src += "@%s(%r)\ndef s%d(context, n):\n    context.got = (%r, n)\n" % (deco, pattern.replace("\\\\", "\\"), i, word)
-            with open(os.path.join(root, "m%02d_%s.py" % (i, word)), "w") as fh:
+            modname = "m%02d_%s" % (i, word.encode("ascii", "replace").decode().replace("?", "x"))
+            with open(os.path.join(root, modname + ".py"), "w", encoding="utf-8") as fh:
                 fh.write(src)
             plan.append((choice, effective, word, deco))
-            modnames.append("m%02d_%s" % (i, word))
+            modnames.append(modname)
             # a definition made with @given / @Given answers Given steps only (likewise when/then); @step / @Step answers all
             for st_type in ("given", "when", "then"):
                 binds = deco.lower() in ("step", st_type)
@@ -680,12 +681,23 @@ def module_loading_random(lab, mon, rng):
             matchers.use_default_step_matcher("parse")
             matchers.use_step_matcher(default)
             mon.seen("project_default_given_by", "use_step_matcher_before_loading")
+        # the console of the process may have any encoding (PYTHONIOENCODING=latin-1, a cp1252 terminal): source files are read as
+        # what they are
+        import io as _io
+        console = rng.choice(["utf-8", "latin-1", "cp1252"])
+        mon.seen("console_encoding_while_loading", console)
+        real_stdout = sys.stdout
+        if console != "utf-8":
+            sys.stdout = _io.TextIOWrapper(_io.BytesIO(), encoding=console, errors="backslashreplace")
         try:
             runner_util.load_step_modules([root])
         except Exception as ex:
+            sys.stdout = real_stdout
             mon.check("modules.default_matcher_reset", False,
                       lambda: dict(default=default, modules=[list(p) for p in plan], first_module_imports=imported, error=repr(ex)))
             return
+        finally:
+            sys.stdout = real_stdout
         reg = step_registry.registry
         results = {}
         for (st_type, text) in want:
@@ -839,6 +851,47 @@ def cucumber_expressions(lab, mon, rng):
         mon.seen("cucumber_expression_parameters", "none" if args == () else ("no_match" if args is None else str(len(args))))
 
 
+def bindings_in_a_run(mon, rng):
+    """The same step text under several keywords in ONE scenario, with one definition PER STEP TYPE (@given / @when / @then): in a
+    dry run (where steps are bound but not executed) and in a normal run every step is bound to the definition of its own type."""
+    from ..lab.inproc import RunLab
+    lab = RunLab()
+    n = rng.choice([10, 20, 30, 110])
+    text = "k%d %s" % (n, rng.choice(["is ready", "checks x", "does something"]))
+    kws = rng.sample(["Given", "When", "Then"], rng.choice([2, 3]))
+    steps = []
+    for kw in kws:
+        steps.append({"kw": kw, "text": text})
+        if rng.random() < 0.4:
+            steps.append({"kw": rng.choice(["And", "But"]), "text": text})
+    bg = {"kind": "background", "name": "", "desc": [], "steps": [{"kw": "Given", "text": text, "first_of_background": True}]} if rng.random() < 0.4 else None
+    feat = {"kind": "feature", "tags": [], "name": "F0", "desc": [], "background": bg, "file": "f0.feature",
+            "items": [{"kind": "scenario", "tags": [], "name": "F0S1", "desc": [], "steps": steps}]}
+    program = {"features": [feat], "outcomes": {text: "pass"}}
+    want, last = [], None
+    for st in ((bg["steps"] if bg else []) + steps):
+        last = st["kw"].lower() if st["kw"] in ("Given", "When", "Then") else last
+        want.append("step_typed_%s" % last)
+    for dry in (True, False):
+        bound = []
+
+        class Binding(object):
+            def match(self, match):
+                bound.append(getattr(getattr(match, "func", None), "__name__", None))
+
+            def __getattr__(self, name):
+                if name.startswith("__"):
+                    raise AttributeError(name)
+                return lambda *a, **k: None
+        obs = lab.run(program, args=["--dry-run"] if dry else [], formatters=lambda config, st: [Binding()])
+        case = {"kind": "bindings-in-a-run", "steps": [[st["kw"], st["text"]] for st in steps], "background": bool(bg), "dry_run": dry}
+        mon.case(("bindings", tuple(kws), n, bool(bg), dry), True)
+        mon.seen("binding_observed_in", "dry_run" if dry else "normal_run")
+        wrong_type = [c for c in obs.calls if c[0] == "<definition of another step type>"]
+        mon.check("run.every_step_bound_to_the_definition_of_its_type", obs.escaped is None and bound == want and not wrong_type,
+                  lambda: dict(case=case, bound=bound, want=want, escaped=repr(obs.escaped), wrong_type_calls=wrong_type[:3]))
+
+
 def run(spec, mon):
     lab = Lab(mon)
     tier = spec.get("tier", "quick")
@@ -871,6 +924,8 @@ def run(spec, mon):
     module_loading(lab, mon, rng)
     for i in range(8 if tier == "quick" else 60):
         module_loading_random(lab, mon, rng)
+    for i in range(6 if tier == "quick" else 200):
+        bindings_in_a_run(mon, rng)
 
 
 def replay(case, mon):
